@@ -728,7 +728,6 @@ func genCurve(field, scal, root *pkgSrc, out string) {
 		{root, "root", "Element.isEqual", "isEqual", nil},
 		{root, "root", "Element.isEqual", "isEqual_same", [][]string{{"e", "u"}}},
 		{root, "root", "Element.affine", "affine", nil},
-		{root, "root", "Element.addAffine3Iso2", "addAffine3Iso2", nil},
 		{root, "root", "Secp256Polynomial", "secp256Polynomial", nil},
 		{root, "root", "SSWU", "sswu", nil},
 		{root, "root", "IsogenySecp256k13iso", "isogeny", nil},
